@@ -73,6 +73,12 @@ def make_trees(specgen_valid):
         {"name": "Emf", "kind": "struct", "dir": "map", "family": "", "action": "", "code": [field("c", "Coords"), field("k", "Kind")], "rt": True},
         {"name": "TalkRequestClientPacket", "kind": "packet", "dir": "net/client", "family": "Talk", "action": "Request", "code": [field("msg", "string")], "rt": True},
         {"name": "TalkReplyServerPacket", "kind": "packet", "dir": "net/server", "family": "Talk", "action": "Reply", "code": [field("drop", "DropInfo"), field("rec", "ShopRecord")], "rt": True},
+        # the same family and action in both directions; names with acronyms and digits (snake_case <-> PascalCase is not a bijection)
+        {"name": "TalkRequestServerPacket", "kind": "packet", "dir": "net/server", "family": "Talk", "action": "Request", "code": [field("code", "char")], "rt": True},
+        {"name": "NPCPlayerServerPacket", "kind": "packet", "dir": "net/server", "family": "NPC", "action": "Player", "code": [field("t", "NPCType")], "rt": True},
+        {"name": "NPCType", "kind": "struct", "dir": "pub", "family": "", "action": "", "code": [field("id", "short")], "rt": True},
+        {"name": "Vector2D", "kind": "struct", "dir": "map", "family": "", "action": "", "code": [field("x", "char"), field("y", "char")], "rt": True},
+        {"name": "EIFRecord", "kind": "struct", "dir": "pub", "family": "", "action": "", "code": [field("v", "Vector2D"), field("n", "NPCType")], "rt": True},
     ]
     trees.append(("sibling-references", tB, pB))
     # C: SpecGen programs spread over the files
